@@ -281,10 +281,23 @@ func timingFamilies(_ bool) []family {
 	xs("comment-pairs", "", "<!---->", "")
 	xs("cdata-pairs", "", "<![CDATA[]]>", "")
 	xs("junk-url", "<a href=\"", "\x01", "javascript:\">")
+	for _, pre := range []string{"<a href=\"", "<a href='", "<a href=", "<img src=", "<form action=\"", "x\" href=\"", "<a style=\"", "<a onclick=\"", "<a xmlns=\"", "<a b=\""} {
+		for _, u := range []string{"x", "http://e/", "&#120;", "&#x78;", "&", "&#", "j", "java", "\n", "\x00"} {
+			xs("attr-value:"+pre+"|"+u, pre, u, "")
+		}
+	}
 	// closed constructs repeated: every opener is re-entered once per repetition
 	for _, u := range []string{"'a' ", "\"a\" ", "`a` ", "/*a*/", "/*a*/ ", "$$a$$ ", "$t$a$t$ ", "[a] ", "q'(a)' ", "x'0F' ", "b'01' ", "n'a' ", "u&'a' ", "@`a` ", "@'a' ",
 		"--a\n", "#a\n", "1e1 ", "0x1F ", "a.b ", "(1)", "{a}", "a`b ", "'a''b' ", "'a\\'b' ", "select 1;", "1 union select ", "a=b or "} {
 		sq("closed:"+strings.TrimSpace(u), "", u, "")
+	}
+	// one representative per lexer branch, repeated with a joiner that keeps `fold` consuming input
+	// (an operator chain folds for ever; a comma list stops after five tokens)
+	for _, u := range []string{"1div", "1f", "1d", "1F", "1fu", "1du", "1e", "1e+", "1.", ".1", "1.e1", "0x", "0b", "0x1g", "$1", "$1.", "$a", "1fa", "1dz", "1e1f",
+		"\\N", "\\", "a.b", "a`", "@", "@@", "@a", "?", ":", "^", "~", "!", "<=>", "!=", ":=", "&&", "||", "<>", "{a", "}", "null", "not", "in", "like", "user", "if"} {
+		for _, j := range []string{" ", "+", " div ", " or ", ","} {
+			sq("unit:"+u+"|"+j, "", u+j, "1")
+		}
 	}
 	for _, u := range []string{"<!a>", "<!--a-->", "<!--a--!>", "<?a>", "<%a%>", "<![CDATA[a]]>", "<!doctype a>", "</a>", "</>", "</ a>", "<a>", "<a/>", "<a b='c'>", "<a b=\"c\">", "<a b=`c`>",
 		"<a b=c>", "<a b>", "<a b=c d=e>", "<a/b/c>", "a<b", "<a href='&#106;'>", "<!-->", "<!--->", "<%%>", "<a\x00>", "' b='c", "\" b=\"c", "` b=`c", "b=c "} {
